@@ -221,6 +221,7 @@ func (e *FnEnc) heapIn(st *State, name string) string {
 		return cur
 	}
 	if st.epoch == 0 {
+		e.nilMapEmpty(name, quoteSym(name))
 		return quoteSym(name)
 	}
 	if st.epoch == -1 { // symbolic heap of a spec function body
@@ -229,7 +230,24 @@ func (e *FnEnc) heapIn(st *State, name string) string {
 		}
 		return quoteSym("hf:" + name)
 	}
-	return e.decl(fmt.Sprintf("%s@%d", name, st.epoch), e.heapSort[name])
+	sym := e.decl(fmt.Sprintf("%s@%d", name, st.epoch), e.heapSort[name])
+	e.nilMapEmpty(name, sym)
+	return sym
+}
+
+// the nil map has no keys, in every state (a write to a nil map panics, a delete on it changes nothing): stated
+// for every unconstrained version of a key-set array, so that `v, ok := m[k]` on a nil map is `zero, false`
+func (e *FnEnc) nilMapEmpty(name, sym string) {
+	if !strings.HasPrefix(name, "M/") || !strings.HasSuffix(name, "/dom") || e.ufs["nilmap:"+sym] {
+		return
+	}
+	e.ufs["nilmap:"+sym] = true
+	srt := e.heapSort[name]
+	if !strings.HasPrefix(srt, "(Array Int (Array ") {
+		return
+	}
+	ks := strings.TrimSuffix(strings.TrimPrefix(srt, "(Array Int (Array "), " Bool))")
+	e.specDefs = append(e.specDefs, fmt.Sprintf("(assert (forall ((k %s)) (! (not (select (select %s 0) k)) :pattern ((select (select %s 0) k)))))", ks, sym, sym))
 }
 
 func (e *FnEnc) havocAll() {
